@@ -256,7 +256,10 @@ class Trench:
         mask = self.zigzag_mask()
         path_collection = poly.intersection(mask)
         coords = []
-        for line in path_collection.geoms:
+        # the intersection is a collection of lines, but also a single line, a point or nothing for small polygons
+        for line in getattr(path_collection, 'geoms', [path_collection]):
+            if line.geom_type != 'LineString' or line.is_empty:
+                continue
             self._floor_length += line.length + self.delta_floor
             coords.extend(line.coords)
         return np.array(coords).T
@@ -294,6 +297,9 @@ class Trench:
         polygon_list = [self.block]
 
         for _ in range(self.num_insets):
+            # thin blocks are used up before the requested number of insets
+            if not polygon_list:
+                break
             current_poly = polygon_list.pop(0)
             if not current_poly.is_empty:
                 polygon_list.extend(self.buffer_polygon(current_poly, offset=-np.fabs(self.delta_floor)))
@@ -301,7 +307,9 @@ class Trench:
                 yield np.array(current_poly.exterior.coords).T
 
         for poly in polygon_list:
-            yield self.zigzag(poly.buffer(1.05 * self.delta_floor))
+            hatching = self.zigzag(poly.buffer(1.05 * self.delta_floor))
+            if hatching.size:
+                yield hatching
 
     @staticmethod
     def buffer_polygon(shape: geometry.Polygon, offset: float) -> list[geometry.Polygon]:
